@@ -153,6 +153,7 @@ def load(names=None, include_heavy=True, quiet=True):
                     if i % 5 == 1:
                         spec["nprogs"] = 3
                         spec["explicit_interaction"] = True
+                        spec["empty_treated"] = bool(i % 2)  # half of the three-program models start with nobody treated
                     P = modelgen.build_project(spec, name=name)
                     P.run_sim(P.parsets[0], store_results=False)
                     meta = _describe(P)
